@@ -152,6 +152,8 @@ def compare(ctx, name, emap, shape, desc, out, hidden=False):
         for _try in range(30):
             gf = gen.gen_file(r, lang if lang in langs.LANGS else g, gen.Opts(max_blocks=5, max_depth=2))
             # the file should contain decoys (tags in strings / markup), which is where sibling grammars disagree
+            if g == "cpp" and b'R"x(' not in gf.data:
+                continue      # C++ raw string literals are where the C and C++ grammars disagree
             if gf.meta["decoys"] >= 2 or not langs.LANGS[lang if lang in langs.LANGS else g]["decoys"]:
                 break
         res = _list(ctx, name, gf.data, eargs, via_diff=hidden)
